@@ -1,3 +1,4 @@
+import CG.Proofs.WFRun
 import CG.Proofs.Basics
 import CG.Proofs.C03
 
@@ -16,3 +17,4 @@ import CG.Proofs.C03
 #print axioms CG.C03.addEdge_restore
 #print axioms CG.C03.copyEdgesImpl_spec
 #print axioms CG.C03.Ex.step_fails
+#print axioms CG.wf_run_all
